@@ -239,6 +239,28 @@ Proof.
     reflexivity.
 Qed.
 
+(* a node that registered no message as acceptable from a data message (the plain TunnelCommunity) executes nothing
+   of what the outside world returns in the shape of its own overlay's messages: dropped, state unchanged *)
+Lemma outside_control_message_dropped_l (p : path) source data nsx rnd nss nso :
+  aead_correct enc dec -> backward_ready p -> c_hs (p_circ p) = None ->
+  addr_ok false source = true -> bytes_okb data = true ->
+  existsb (Z.eqb 1) (n_handlers (p_origin p)) = true ->
+  could_be_ipv8 data = true -> is_e2e (c_ctype (p_circ p)) = false ->
+  bytes_eqb (p_pfx p) (slice data None (Some 22)) = true -> n_data_ids (p_origin p) = [] ->
+  let a1 := first_addr (p_relays p) (p_xaddr p) in
+  let prev := last_sender (p_relays p) (p_oaddr p) in
+  exists (links : list bytes),
+    tunnel_data enc (p_exit p) (p_xsock p) source data nsx = Ok (p_exit p, [Send prev (hd [] links)])
+    /\ through enc dec (rev (p_relays p)) (p_xaddr p) prev (hd [] links) rnd nss
+       = Some (a1, p_oaddr p, nth (length (p_relays p)) links [], List.tl links)
+    /\ on_packet enc dec (p_origin p) a1 (nth (length (p_relays p)) links []) rnd nso = Ok (p_origin p, []).
+Proof.
+  intros C Hr Hhs Hs Hb Hh Hcb He Hpf Hw a1 prev.
+  destruct (backward_intact_l p source data nsx rnd nss nso C Hr Hhs Hs Hb Hh) as (links & H1 & H2 & _ & H4).
+  exists links. split; [exact H1|]. split; [exact H2|]. fold a1 in H4. rewrite H4, Hcb, He, Hpf, Hw. cbn [negb andb].
+  destruct (idx data 22); reflexivity.
+Qed.
+
 (* ------------------------------------------------------------------ what is visible on the links *)
 Lemma layers_distinct_l ovh d (ks : list key) nl m i j :
   aead_grows enc ovh -> length nl = length ks -> (i < j <= length ks)%nat ->
